@@ -340,10 +340,33 @@ def run_reads(ctx):
                 # ---------------- sequential reads: fresh node (guess) and warmed node (actual segment size)
                 warm = fresh_node(c, cap)
                 rt.wait(warm.read(MemoryConsumer(), 0, 1))
+                ends = [1]          # end offsets of reads that ran to completion on the warm node
                 for ri in range(ctx.budget(60, 400)):
                     off, sz = gen_range(rng, size, seg)
                     use_warm = rng.random() < 0.5
+                    if use_warm and rng.random() < 0.4:
+                        off = rng.choice(ends)          # continue exactly where an earlier read of this node ended
+                        sz = rng.choice([None, 1, 7, seg, rng.randrange(0, size + 2)])
                     node = warm if use_warm else fresh_node(c, cap)
+                    if use_warm and rng.random() < 0.3:
+                        # a consumer that stops after its first write: whatever it got must be a prefix of its slice
+                        sc = ScriptedConsumer(rt, [(1, "stop")])
+                        want = data[off:] if sz is None else data[off:off + sz]
+                        case = {"kind": "read-stopped", "file": [size, k, n, max_seg], "seed": seed, "off": off, "size": sz}
+                        try:
+                            rt.wait(node.read(sc, off, sz))
+                            if want and not sc.stopped:
+                                ctx.violation("a read whose consumer stops at its first write ended without a write", case, "stop-no-write")
+                        except DownloadStopped:
+                            pass
+                        except Exception as ex:
+                            ctx.violation("read with a stopping consumer failed", case, "read-stopped-failed-" + type(ex).__name__)
+                        if not want.startswith(b"".join(sc.chunks)):
+                            ctx.violation("a stopped reader received bytes that are not a prefix of its slice", case,
+                                          "stopped-read-not-prefix")
+                        ctx.count("read:stopped-after-first-write")
+                        ctx.case(("RS", fi, off, sz, seed) if want else None)
+                        continue
                     dn, calls = wrap_get_segment(node)
                     known = dn.segment_size is not None
                     mc = MemoryConsumer()
@@ -362,6 +385,8 @@ def run_reads(ctx):
                         ctx.violation("read(offset,size) does not deliver the requested slice", case,
                                       "read-slice-%s-%s" % (cls, "known" if known else "guessed"),
                                       {"got_len": len(got), "want_len": len(want)})
+                    if got is not None and use_warm and ok:
+                        ends.append(off + len(got))
                     if got is not None:
                         lines.append("read %d %d %d %d %d %s %s %s" % (k, max_seg, defmax, 1 if known else 0, off,
                                                                         "N" if sz is None else sz, hx(ks), hx(data)))
@@ -685,10 +710,87 @@ def run_feed(ctx):
         ctx.compare("Segmentation._got_segment under arbitrary deliveries to m readers vs feedAll", metas, impl, model)
 
 
+CORPUS_FILES = [(200, 2, 3, 32), (333, 3, 5, 48)]      # (size, k, n, maxSeg): 32- and 48-byte segments
+
+
+def run_resume_corpus(ctx):
+    """Fixed corpus, run first: on ONE node object, a read completes ending at offset X; then
+      (a) a read from X is stopped by its consumer after its first write and X is read again,
+      (b) X is read to completion and then read again,
+      (c) two / three reads starting at X run concurrently;
+    for X on and off segment and AES-block boundaries and several delivery policies.  Every delivered byte is compared
+    with the plaintext slice (statement: each read returns exactly its slice, whatever other reads did or do)."""
+    import grid
+    from twisted.internet import defer
+    from allmydata.immutable import upload
+    from allmydata.interfaces import DownloadStopped
+    from allmydata.util.consumer import MemoryConsumer
+
+    def check(case, what, sig, got, want, exact=True):
+        if (got != want) if exact else (not want.startswith(got)):
+            first = next((i for i, (a, b) in enumerate(zip(got, want)) if a != b), min(len(got), len(want)))
+            ctx.violation(what, case, sig, {"got_len": len(got), "want_len": len(want), "first_diff": first})
+
+    for fi, (size, k, n, max_seg) in enumerate(CORPUS_FILES):
+        seg = -(-max_seg // k) * k
+        data = bytes((i * 7 + (i >> 5) * 13 + 3) % 256 for i in range(size))
+        for policy, seed in (("fifo", 1), ("random", 2), ("random", 3)):
+            with grid.Runtime(seed=seed, policy=policy) as rt:
+                g = grid.Grid(grid.fresh_dir("c04c"), rt, num_servers=n, num_clients=1, k=k, happy=1, n=n, max_segment_size=max_seg)
+                try:
+                    c = g.clients[0]
+                    cap = rt.wait(c.upload(upload.Data(data, convergence=b"c04" + b"\x00" * 13))).get_uri()
+                    for X in (seg, 2 * seg, seg + 5, 17, 16, 3 * seg - 1, size - 9):
+                        for shape in ("stop-then-reread", "read-then-reread", "concurrent-2", "concurrent-3"):
+                            node = fresh_node(c, cap)
+                            case = {"kind": "resume-corpus", "file": [size, k, n, max_seg], "policy": policy, "seed": seed,
+                                    "X": X, "shape": shape}
+                            a = min(X, 20)
+                            mc = MemoryConsumer()
+                            try:
+                                rt.wait(node.read(mc, X - a, a))             # a read that completes, ending at X
+                                check(case, "the first read does not deliver its slice", "corpus-first-read", b"".join(mc.chunks),
+                                      data[X - a:X])
+                                if shape == "stop-then-reread":
+                                    sc = ScriptedConsumer(rt, [(1, "stop")])
+                                    try:
+                                        rt.wait(node.read(sc, X, None))
+                                    except DownloadStopped:
+                                        pass
+                                    check(case, "a stopped reader received bytes that are not a prefix of its slice",
+                                          "corpus-stopped-not-prefix", b"".join(sc.chunks), data[X:], exact=False)
+                                    for sz in (None, 40, 7):
+                                        m2 = MemoryConsumer()
+                                        rt.wait(node.read(m2, X, sz))
+                                        check(case, "reading again from the offset where a stopped read started returns wrong bytes",
+                                              "reread-after-stopped-read", b"".join(m2.chunks), data[X:] if sz is None else data[X:X + sz])
+                                elif shape == "read-then-reread":
+                                    for sz in (33, 33, None, 5):
+                                        m2 = MemoryConsumer()
+                                        rt.wait(node.read(m2, X, sz))
+                                        check(case, "reading the same offset twice on one node returns different / wrong bytes",
+                                              "reread-same-offset", b"".join(m2.chunks), data[X:] if sz is None else data[X:X + sz])
+                                else:
+                                    sizes = [None, 40, 7][: int(shape[-1])]
+                                    cons = [MemoryConsumer() for _ in sizes]
+                                    ds = [node.read(cj, X, sz) for cj, sz in zip(cons, sizes)]
+                                    rt.wait(defer.DeferredList(ds, consumeErrors=True))
+                                    for j, (cj, sz) in enumerate(zip(cons, sizes)):
+                                        check(dict(case, reader=j), "concurrent reads from one offset on one node do not each get their slice",
+                                              "concurrent-same-offset", b"".join(cj.chunks), data[X:] if sz is None else data[X:X + sz])
+                            except Exception as ex:
+                                ctx.violation("a corpus read failed or hung", case, "corpus-read-failed-" + type(ex).__name__, repr(ex)[:200])
+                            ctx.case(("RC", fi, policy, seed, X, shape))
+                            ctx.count("corpus:" + shape)
+                finally:
+                    g.close()
+
+
 def run(ctx):
     import common
     common.setup_impl_path()
     import grid  # noqa: F401
+    run_resume_corpus(ctx)
     run_feed(ctx)
     run_queue(ctx)
     run_ctr(ctx)
